@@ -469,7 +469,7 @@ def corpus():
         for c in cs:
             c["in"]["prefix"] = True
     else:
-        cs += _c16ext.corpus()
+        cs += _c16ext.corpus() + _c16ext.sq_corpus()
     if ONLY_OP:
         cs = [c for c in cs if c["op"] == ONLY_OP]
     return cs
@@ -505,7 +505,7 @@ def gen_cases(rng, tier):
             op = ("by_gene", "genemetrics", "squash_genes", "breaks")[(k // 8) % 4]
             cases.append(_case(rng, op, True, small))
     if not PREFIX:
-        cases += _c16ext.gen(rng, tier)
+        cases += _c16ext.gen(rng, tier) + _c16ext.sq_gen(rng, tier)
     if ONLY_OP:  # development (mutation self-tests): one op only
         cases = [c for c in cases if c["op"] == ONLY_OP]
     return cases
@@ -805,6 +805,8 @@ def run_impl(case):
 
     if case["op"] == "gene_map":
         return _c16ext.run_impl(case)
+    if case["op"] == "squash_cols":
+        return _c16ext.sq_run(case)
     i = case["in"]
     if i.get("cli"):
         return _run_cli(case)
@@ -945,7 +947,7 @@ def judge(case, impl, resp):
             dis = _cmp_rows("squash", out, impl, (0, 1, 2, 3), (4, 5))  # a table without weights
         else:
             dis = _cmp_rows("squash", out, impl, (0, 1, 2, 3), (4, 5, 6))
-    elif op == "gene_map":
+    elif op in ("gene_map", "squash_cols"):
         dis = _c16ext.judge_dis(out, impl)
     elif op == "breaks":
         key = lambda r: (r[1], r[2], r[0], r[4], r[5])
@@ -961,12 +963,16 @@ def judge(case, impl, resp):
 def nontrivial(case, impl, resp):
     if _is_err(impl) or not resp.get("wf", True):
         return False
+    if case["op"] == "squash_cols":
+        return len(case["in"]["rest"]) >= 2
     if case["op"] == "gene_map":
         return _c16ext.nontrivial(case)
     return any(r[4].startswith("G") for r in case["in"]["rows"])
 
 
 def shrink(case):
+    if case["op"] == "squash_cols":
+        return
     if case["op"] == "gene_map":
         yield from _c16ext.shrink(case)
         return
